@@ -139,6 +139,7 @@ def run_case(case, agg):
     w = {"csvpath": text, "rows": rows, "modes": modes}
     base = do_run(base_text, agg)
     run = do_run(text, agg)
+    case["_scanned"] = any(ev["considered"] for ev in base["rec"].lines)
     if base["exc"]:
         return "undecided", None
     if run["exc"]:
@@ -237,7 +238,7 @@ def run_one(case, agg):
     res, w = run_case(case, agg)
     if res is None:
         cm = case["comment"]
-        nontriv = bool(cm["items"])
+        nontriv = bool(cm["items"]) and case.pop("_scanned", True)
         agg.held(shape_of(case), nontriv, sample={"comment": render_comment(cm), "placement": case["placement"], "program": lang.program_text(case["prog"], "m.csv")})
         for k, v in cm["modes"].items():
             if v:
